@@ -29,6 +29,7 @@ CONSTANTS
   PurgeFences = TRUE
   SaveUnderLock = TRUE
   PurgeHoldsShard = TRUE
+  LoadUnderLock = TRUE
   AbsentPurge = FALSE
   Reapplies = TRUE
   Ghost = TRUE
